@@ -25,16 +25,39 @@ ExpectedRuns(s, e, fmt) ==
   ELSE \* bin 1 is always in the set; level 4 (index 5) comes first in id order
        Canon(rs, NLEV, << <<1, 1>> >>)
 
+\* ---- the statement (C12) on what was returned; agreement with the transcription of bins.py is reported apart ("drift") ----
+Max2(x, y) == IF x > y THEN x ELSE y
+Min2(x, y) == IF x < y THEN x ELSE y
+Cnt(k) == MAXC \div Sz(k)                                   \* bins of level k that lie below 2^29
+BlkLo(k) == Off(k)   BlkHi(k) == Off(k) + Cnt(k) - 1
+\* the consecutive ids lo..hi all belong to the returned set (given as maximal runs)
+Covered(lo, hi, runs) == \E r \in 1..Len(runs) : runs[r][1] <= lo /\ hi <= runs[r][2]
+\* the part of a run that lies in the id block of level k
+PartLo(run, k) == Max2(run[1], BlkLo(k))   PartHi(run, k) == Min2(run[2], BlkHi(k))
+PartLen(run, k) == IF PartLo(run, k) <= PartHi(run, k) THEN PartHi(run, k) - PartLo(run, k) + 1 ELSE 0
+SetDecl(runs, s, e, fmt) ==
+  IF runs = << <<-1, -1>> >> THEN FALSE                     \* not a set of integers at all
+  ELSE IF ~InRange(s, e, fmt) THEN runs = << <<1, 1>> >>    \* outside the domain: the whole-chromosome bin
+  ELSE IF P0(s, fmt) > Q0(e) THEN TRUE                      \* an empty interval: the statement is silent
+  ELSE LET p == P0(s, fmt)  q == Q0(e) IN
+       \* contains every bin overlapping the interval
+       /\ \A k \in 0..4 : Covered(Off(k) + Shr(p, k), Off(k) + Shr(q, k), runs)
+       \* only bins of the scheme, and only ones overlapping the interval or the base on either side
+       /\ \A r \in 1..Len(runs) :
+            /\ PartLen(runs[r], 0) + PartLen(runs[r], 1) + PartLen(runs[r], 2) + PartLen(runs[r], 3) + PartLen(runs[r], 4) = runs[r][2] - runs[r][1] + 1
+            /\ \A k \in 0..4 : PartLen(runs[r], k) > 0 =>
+                  /\ Off(k) + Shr(Max2(p - 1, 0), k) <= PartLo(runs[r], k)
+                  /\ PartHi(runs[r], k) <= Off(k) + Shr(Min2(q + 1, MAXC - 1), k)
 VARIABLES i, done
 Init == i \in 1..Len(Cases) /\ done = FALSE
 Clause(c) ==
   IF ~c.isint THEN "one_is_integer"
-  ELSE IF c.one # OneBin_Alg(c.s, c.e, c.fmt) THEN "one_value"
-  ELSE IF ~OneBin_Decl(c.one, c.s, c.e, c.fmt) THEN "one_decl"
-  ELSE IF c.runs # ExpectedRuns(c.s, c.e, c.fmt) THEN "set_value"
-  \* a Feature's bin always equals bins(start, end); so does the stored column
-  ELSE IF c.hasf /\ c.fbin # OneBin_Alg(c.s, c.e, "gff") THEN "feature_bin"
-  ELSE IF c.hasdb /\ c.dbbin # OneBin_Alg(c.s, c.e, "gff") THEN "stored_bin"
+  ELSE IF ~OneBin_Decl(c.one, c.s, c.e, c.fmt) THEN "one_value"          \* not a bin the statement allows
+  ELSE IF ~SetDecl(c.runs, c.s, c.e, c.fmt) THEN "set_value"            \* not a set the statement allows
+  \* a Feature's bin always equals bins(start, end) - of the very same code; so does the stored column
+  ELSE IF c.hasf /\ (c.fbin # c.one \/ ~OneBin_Decl(c.fbin, c.s, c.e, "gff")) THEN "feature_bin"
+  ELSE IF c.hasdb /\ (~OneBin_Decl(c.dbbin, c.s, c.e, "gff") \/ (c.fmt = "gff" /\ c.dbbin # c.one)) THEN "stored_bin"
+  ELSE IF c.one # OneBin_Alg(c.s, c.e, c.fmt) \/ c.runs # ExpectedRuns(c.s, c.e, c.fmt) THEN "drift"
   ELSE "ok"
 Next == /\ ~done /\ done' = TRUE /\ i' = i
         /\ LET cl == Clause(Cases[i]) IN
